@@ -457,4 +457,60 @@ def TObs.erase : List TObs → List Obs
   | .base o :: t => o :: TObs.erase t
   | .outcome _ :: t => TObs.erase t
 
+/-! ## Re-initialisation: `CEMIHandler.data_secure_init(keyring)` on every interface start
+
+`KNXIPInterface._start()` calls `data_secure_init` each time.  On this tree it
+*replaces* the `DataSecure` object: key table and sender table are those of the
+keyring just given, the sending counter is re-derived from the clock
+(`_initial_sequence_number()`), `None` / a keyring without group keys switch Data
+Secure off.  (That the sender table falls back to the keyring's values is what
+the code does; C18 does not speak about it.) -/
+
+/-- The Data Secure content of a keyring: `get_data_secure_group_keys()`, `get_data_secure_senders()`. -/
+abbrev KeyringDS := List (Nat × Bytes) × List (Nat × Nat)
+
+/-- `data_secure_init(keyring)` with the clock reading already turned into a sequence number.
+`none` = `DataSecureError` ("Initial sequence number out of range"): nothing is assigned. -/
+def dsInit (kr : Option KeyringDS) (clockSeq : Nat) : Option (Option DS) :=
+  match kr with
+  | none => some none
+  | some (keys, senders) =>
+    if keys = [] then some none                       -- `if not ga_key_table: return None`
+    else if initOk clockSeq then some (some ⟨keys, senders, clockSeq⟩)
+    else none
+
+inductive HEv where
+  | init (kr : Option KeyringDS) (clockSeq : Nat)
+  | recv (f : Frame) (innerOk : Bool)      -- L_Data.ind through `handle_cemi_frame`
+  | send (f : Frame)                       -- `send_telegram` up to the hand-over
+  deriving DecidableEq, Repr
+
+inductive HObs where
+  | inited (on : Bool)
+  | initError
+  | route (r : Route)
+  | sendRes (o : SendOut)
+  deriving DecidableEq, Repr
+
+/-- One `CEMIHandler` over its lifetime. -/
+def hstep (E : BlockFn) (s : Option DS) : HEv → Option DS × List HObs
+  | .init kr c =>
+    match dsInit kr c with
+    | some s' => (s', [.inited s'.isSome])
+    | none => (s, [.initError])
+  | .recv f io => ((handle E s f (fun _ => io)).1, [.route (handle E s f (fun _ => io)).2])
+  | .send f =>
+    match s with
+    | none => (none, [.sendRes (.plain f)])
+    | some ds => (some (outgoing E ds f).1, [.sendRes (outgoing E ds f).2])
+
+/-- The key table in force. -/
+def keysOf : Option DS → List (Nat × Bytes)
+  | none => []
+  | some ds => ds.keys
+
+def HEv.isInit : HEv → Bool
+  | .init _ _ => true
+  | _ => false
+
 end XknxVerif.DataSecure
